@@ -4,8 +4,8 @@
    that a real child process behaves so is established by the tie (children are spawned and
    compared), because write(2), buffering and process::exit live in the OS. *)
 From Coq Require Import List NArith ZArith.
-From BpafModel Require Import Process.
-From BpafLemmas Require Import ProcLaws QuietLaws.
+From BpafModel Require Import Process Message.
+From BpafLemmas Require Import ProcLaws QuietLaws MessageLaws.
 Import ListNotations.
 
 (* Status: 0 exactly for value / help / version / completion, 1 exactly for a parse failure.
@@ -50,6 +50,22 @@ Theorem C11_name :
     exists p, argv0 = Some p /\ file_name p = Some n /\ utf8_valid n = true.
 Proof. exact program_name_spec. Qed.
 Print Assumptions C11_name.
+
+(* every parse failure goes to stderr with a NON-EMPTY message: the document Message::render builds
+   (Model/Message.v, compared byte for byte with the library on every run) has text, for every kind of message
+   -- unless the text is the user's own (`some("")`, `fail("")`, a `fallback_with` error), which is printed
+   verbatim *)
+Theorem C11_message_not_empty :
+  forall r s d,
+    render_doc r s = Some d ->
+    match r with
+    | RPlain (MsgParseSome _) | RPlain (MsgParseFail _) | RPlain (MsgPureFailed _) | RPlain (MsgMissing _)
+    | RPlain (MsgParseFailure _) => False
+    | _ => True
+    end ->
+    doc_text d <> [].
+Proof. exact message_nonempty. Qed.
+Print Assumptions C11_message_not_empty.
 
 Example C11_name_examples :
   program_name (Some [47;117;115;114;47;98;105;110;47;109;121;46;116;111;111;108]%N) = Some [109;121;46;116;111;111;108]%N /\
